@@ -104,14 +104,17 @@ int yield_sleep_contract(void)
   __CPROVER_assigns(g_need_yield, g_yield_ever)
   __CPROVER_ensures(g_need_yield == 0 && g_yield_ever == 1);
 
-/* the contract of myth_nanosleep_body: enforced on the real body (job c20.nanosleep), used by usleep / sleep */
+/* the contract of myth_nanosleep_body: enforced on the real body (job c20.nanosleep), used by usleep / sleep.
+   g_req is the specification's name for the request.  GHOST PROLOGUE: "g_req := *req" belongs to the callee's
+   specification; the enforcing harness executes it before the call (the body never touches a ghost), a caller that
+   uses the contract gets it from assigns + the first ensures clause. */
 int nanosleep_contract(const struct timespec * req, struct timespec * rem)
   __CPROVER_requires(req != 0)
-  __CPROVER_requires(g_req_s == req->tv_sec && g_req_ns == req->tv_nsec && "the request handed to nanosleep is the specified duration")
-  __CPROVER_requires(g_req_s <= REQ_MAX)                                       /* stated bound, see assumptions */
+  __CPROVER_requires(req->tv_sec <= REQ_MAX)                                   /* stated bound, see assumptions */
   __CPROVER_requires(g_reads == 0 && g_need_yield == 0 && g_past == 0 && g_yield_ever == 0)
   __CPROVER_requires(CLOCK_OK)
-  __CPROVER_assigns(g_now_s, g_now_ns, g_reads, g_need_yield, g_past, g_dl_s, g_dl_ns, g_yield_ever)
+  __CPROVER_assigns(g_req_s, g_req_ns, g_now_s, g_now_ns, g_reads, g_need_yield, g_past, g_dl_s, g_dl_ns, g_yield_ever)
+  __CPROVER_ensures(g_req_s == req->tv_sec && g_req_ns == req->tv_nsec)
   __CPROVER_ensures(__CPROVER_return_value == 0 || __CPROVER_return_value == EINVAL)
   /* EINVAL exactly for malformed durations ... */
   __CPROVER_ensures((__CPROVER_return_value == EINVAL) == !WELLFORMED(g_req_s, g_req_ns))
@@ -249,29 +252,68 @@ void h_nanosleep(void) {
   VERIF_CANARY();
 }
 
-/* myth_usleep_body: exact unit conversion (the request handed to nanosleep is usec microseconds), result passed on */
+/* ---- usleep: exact unit conversion.
+   Specification "from the answer": usec = s * 10^6 + us with 0 <= us < 10^6 (every useconds_t value has exactly one
+   such decomposition); the duration is s seconds + us * 1000 nanoseconds.
+   Proving  usec / 10^6 == s  asks the SAT solver to invert a multiplier; two universally valid facts (lemma
+   h_lemma_mul: multiplication by 10^6 is strictly monotone on [0, 4294], proved for ALL a, b in its own job) are
+   given to it as hints, after the cut "0 <= tv_sec <= 4294" has itself been proved (assert, then assume). */
+#define US_PER_S 1000000u
+#define MONO_HINT(a, b) (!((a) < (b)) || ((a) * US_PER_S + US_PER_S <= (b) * US_PER_S && (a) * US_PER_S + US_PER_S > (a) * US_PER_S))
+
+void h_lemma_mul(void) {
+  unsigned a = nondet_unsigned(), b = nondet_unsigned();
+  __CPROVER_assume(a <= 4294u && b <= 4294u);
+  __CPROVER_assert(MONO_HINT(a, b), "lemma: a < b <= 4294  ==>  a*10^6 + 10^6 <= b*10^6 without wrap-around (unsigned 32 bit)");
+  VERIF_CANARY();
+}
+
+static unsigned g_us_s, g_us_us;
+static useconds_t usleep_input(void) {
+  g_us_s = nondet_unsigned(); g_us_us = nondet_unsigned();
+  __CPROVER_assume(g_us_us <= 999999u && (g_us_s <= 4293u || (g_us_s == 4294u && g_us_us <= 967295u)));   /* s*10^6+us <= UINT_MAX */
+  return g_us_s * US_PER_S + g_us_us;
+}
+
 void h_usleep(void) {
   clock_setup();
-  /* specification of the conversion, written from the answer: usec = s * 10^6 + us with 0 <= us < 10^6 (every
-     useconds_t value has exactly one such decomposition); the duration is s seconds + us * 1000 nanoseconds */
-  long s = nondet_long(), us = nondet_long();
-  __CPROVER_assume(0 <= s && s <= 4294 && 0 <= us && us <= 999999 && s * 1000000L + us <= 4294967295L);
-  useconds_t usec = (useconds_t)(s * 1000000L + us);
-  g_req_s = s; g_req_ns = us * 1000L;
+  g_req_s = -1; g_req_ns = -1;
+  useconds_t usec = usleep_input();
   int r = myth_usleep_body(usec);
+  __CPROVER_assert(0 <= g_req_s && g_req_s <= 4294, "usleep: seconds handed to nanosleep lie in [0, 4294]");
+  __CPROVER_assume(0 <= g_req_s && g_req_s <= 4294);                                   /* cut: proved just above */
+  unsigned q = (unsigned)g_req_s;
+  __CPROVER_assume(MONO_HINT(q, g_us_s) && MONO_HINT(g_us_s, q));                      /* instances of h_lemma_mul */
+  __CPROVER_assert(g_req_s == (long)g_us_s, "usleep: tv_sec handed to nanosleep == usec / 10^6 exactly");
+  __CPROVER_assert(NORM(g_req_ns), "usleep: tv_nsec handed to nanosleep is normalised");
   __CPROVER_assert(r == 0, "usleep: every useconds_t value is a well-formed duration: returns 0, never EINVAL");
-  __CPROVER_assert(g_past == 1 && GT(g_now_s, g_now_ns, g_dl_s, g_dl_ns), "usleep: returns only after a reading past start + usec microseconds");
+  __CPROVER_assert(g_reads == 2 && g_past == 1 && GT(g_now_s, g_now_ns, g_dl_s, g_dl_ns),
+                   "usleep: returns only after a reading past start + the duration handed to nanosleep");
+  VERIF_CANARY();
+}
+
+/* the nanosecond part, exactly:  tv_nsec == (usec mod 10^6) * 1000 */
+void h_usleep_ns(void) {
+  clock_setup();
+  g_req_s = -1; g_req_ns = -1;
+  useconds_t usec = usleep_input();
+#ifdef C20_US_MAX
+  __CPROVER_assume(usec <= C20_US_MAX);
+#endif
+  (void)myth_usleep_body(usec);
+  __CPROVER_assert(g_req_ns == (long)(g_us_us * 1000u), "usleep: tv_nsec handed to nanosleep == (usec mod 10^6) * 1000 exactly");
   VERIF_CANARY();
 }
 
 /* myth_sleep_body: request is exactly s seconds */
 void h_sleep(void) {
   clock_setup();
+  g_req_s = -1; g_req_ns = -1;
   unsigned int s = nondet_unsigned();
-  g_req_s = (long)s; g_req_ns = 0;
   unsigned int r = myth_sleep_body(s);
+  __CPROVER_assert(g_req_s == (long)s && g_req_ns == 0, "sleep: the duration handed to nanosleep is exactly s seconds");
   __CPROVER_assert(r == 0, "sleep: returns 0 (nothing left to sleep), never an error for any unsigned s");
-  __CPROVER_assert(g_past == 1 && GT(g_now_s, g_now_ns, g_dl_s, g_dl_ns), "sleep: returns only after a reading past start + s seconds");
+  __CPROVER_assert(g_reads == 2 && g_past == 1 && GT(g_now_s, g_now_ns, g_dl_s, g_dl_ns), "sleep: returns only after a reading past start + s seconds");
   VERIF_CANARY();
 }
 
